@@ -23,7 +23,7 @@ RULE = ("seeded random configurations: circuit (0-3 heralds of 0-2 photons incl.
         "lossy, post-selection kind, #inputs, detector mode, photons, modes); non-trivial = heralds or loss or "
         "post-selection present")
 MANDATORY = ["herald_with_photon", "herald_in_ne_out", "post_selection_rejects", "threshold_bunched_candidate",
-             "lossy", "predicate_post_selection", "rule_post_selection", "error_rate_checked", "rule_added_in_place"]
+             "lossy", "predicate_post_selection", "rule_post_selection", "error_rate_checked", "rule_added_in_place", "expected_in_other_order"]
 DECIDING = ["rel_analyzer_vs_sampler", "rel_quick_vs_sampler", "rel_simulator_vs_sampler", "rel_performance"]
 BUDGET = {"quick": 30, "thorough": 480}
 ASSUMPTIONS = ["relations are checked between the objects' own results: absolute tolerance 1e-7 plus the documented 1e-9 "
@@ -166,6 +166,15 @@ def run(ctx):
                 idx = rng.choice(len(an_res.outputs), size=min(n_exp, len(an_res.outputs)), replace=False)
                 outs = [an_res.outputs[int(i)] for i in idx]
                 expected[s] = outs[0] if (len(outs) == 1 and rng.random() < 0.5) else outs
+            if len(expected) >= 2 and rng.random() < 0.6:
+                items = list(expected.items())
+                rng.shuffle(items)                    # the order in which the mapping was written must not matter
+                expected = dict(items)
+                ctx.bucket("expected_in_other_order")
+            if rng.random() < 0.2:
+                extra = State(random_state(rng, k, nph))
+                if extra not in expected:
+                    expected[extra] = an_res.outputs[0]       # an entry for an input that is not analysed
             try:
                 an_res2 = emu.Analyzer(c)
                 an_res2.post_selection = ps_obj
